@@ -438,6 +438,13 @@ def recordJobStart (v : Variant) (j : JobRow) (root : Bool) (s : Sess) : Except 
 def recordJobEnd (id : H) (call : Option H) (cached : Bool) (s : Sess) : Sess :=
   (s.add (.jobEnd id call cached)).commit
 
+/-- `record_tags(entity, tags)` as the scheduler uses it (no parents): new Tag rows, then a commit.  `commit = false` is
+NOT what the code does: it is the seeded design "leave the tags pending for the caller's next commit", kept to state
+what goes wrong with it (C22.pending_tags_lost_on_retry). -/
+def recordTags (commit : Bool) (tags : List TagRow) (s : Sess) : Sess :=
+  let s1 := s.addAll ((tags.filter (fun t => !hasTag s.view t.tag)).map RowOp.tag)
+  if commit then s1.commit else s1
+
 /-- one evaluated argument: slot, value, upstream call hashes (already a set) -/
 structure ArgSpec where
   slot : Nat
